@@ -159,13 +159,23 @@ class NameFixPass(ir.passes.InPlacePass):
                     ):
                         modified = True
 
+            # Step 3: Fix the names of all values defined by the nodes of this graph before
+            # entering any subgraph, so that nested scopes see every name of their parents
+            # and a captured value is recorded in the scope of the graph that defines it
+            for node in graph_like:
+                for output_value in node.outputs:
+                    if self._process_value(
+                        output_value, scoped_used_value_names[-1], seen_values, value_counter
+                    ):
+                        modified = True
+
         def exit_graph(_) -> None:
             """Callback for exiting a subgraph."""
             # Pop the current scope
             scoped_used_value_names.pop()
             scoped_used_node_names.pop()
 
-        # Step 3: Process all nodes and their values
+        # Step 4: Process all nodes and their values
         for node in ir.traversal.RecursiveGraphIterator(
             graph_like, enter_graph=enter_graph, exit_graph=exit_graph
         ):
